@@ -28,6 +28,14 @@ import (
 	wasmkeeper "github.com/CosmWasm/wasmd/x/wasm/keeper"
 
 	"github.com/sge-network/sge/app"
+	betmod "github.com/sge-network/sge/x/bet"
+	housemod "github.com/sge-network/sge/x/house"
+	marketmod "github.com/sge-network/sge/x/market"
+	mintmod "github.com/sge-network/sge/x/mint"
+	obmod "github.com/sge-network/sge/x/orderbook"
+	ovmmod "github.com/sge-network/sge/x/ovm"
+	rewardmod "github.com/sge-network/sge/x/reward"
+	submod "github.com/sge-network/sge/x/subaccount"
 	bettypes "github.com/sge-network/sge/x/bet/types"
 	housetypes "github.com/sge-network/sge/x/house/types"
 	markettypes "github.com/sge-network/sge/x/market/types"
@@ -243,61 +251,12 @@ func genesisCheck(in, out string, every int) {
 		}
 		// ---- export / validate / import / compare at this boundary
 		checks++
-		var exp servertypes.ExportedApp
-		var eerr error
-		// every module except the 08-wasm light client, whose ExportGenesis reads a store the app never mounts
-		// (in a goroutine, so the panic cannot be recovered); names unknown to the module manager are dropped.
-		if exportMods == nil {
-			for name := range app.ModuleBasics {
-				if name != "08-wasm" {
-					exportMods = append(exportMods, name)
-				}
-			}
-			sortStrings(exportMods)
-		}
-		for try := 0; try < 8; try++ {
-			eerr = nil
-			func() {
-				defer func() {
-					if r := recover(); r != nil {
-						eerr = fmt.Errorf("panic: %v", r)
-					}
-				}()
-				exp, eerr = c.App.ExportAppStateAndValidators(false, nil, exportMods)
-			}()
-			if eerr == nil || !strings.Contains(eerr.Error(), "does not exist") {
-				break
-			}
-			bad := strings.TrimSuffix(strings.TrimPrefix(eerr.Error(), "panic: module "), " does not exist")
-			var l []string
-			for _, m := range exportMods {
-				if m != bad {
-					l = append(l, m)
-				}
-			}
-			exportMods = l
-		}
-		if eerr != nil {
-			h.line(fmt.Sprintf("MON C16 export at block %d fails: %s", blk, trunc(eerr.Error(), 200)))
-			continue
-		}
-		for _, v := range validateExported(c, exp.AppState) {
-			h.line("MON " + v + fmt.Sprintf(" (block %d)", blk))
-		}
-		nc, rerr := restart(c, exp)
-		if rerr != nil {
-			h.line(fmt.Sprintf("MON C16 restart from the export at block %d fails: %s", blk, trunc(rerr.Error(), 300)))
-			continue
-		}
-		octx := committedCtx(c)
-		nctx := nc.App.NewContext(false, nc.header()) // deliver state right after InitChain
-		for _, st := range customStores {
-			if d := diffStores(rawStore(c.App, st, octx), rawStore(nc.App, st, nctx)); d != "" {
-				h.line(fmt.Sprintf("MON C16 store %s: %s (block %d)", st, d, blk))
-			}
+		vs, nc := boundaryCheck(c, blk)
+		for _, v := range vs {
+			h.line("MON " + v)
 		}
 		h.line(fmt.Sprintf("GCHK %d", blk))
-		if blk == mid {
+		if blk == mid && nc != nil {
 			twin = nc
 		}
 	}
@@ -359,7 +318,67 @@ func boundaryCheck(c *Chain, blk int) ([]string, *Chain) {
 			v = append(v, fmt.Sprintf("C16 store %s: %s (block %d)", st, d, blk))
 		}
 	}
+	// the same with the custom modules exported under the block's own context (header time set), which is what an
+	// in-place export from an upgrade handler or a module test sees; app/export.go uses a header without time
+	if te := timedExports(c); te != nil {
+		var gs map[string]json.RawMessage
+		if json.Unmarshal(exp.AppState, &gs) == nil {
+			changed := []string{}
+			for m, raw := range te {
+				if canonJSON(raw) != canonJSON(gs[m]) {
+					gs[m] = raw
+					changed = append(changed, m)
+				}
+			}
+			if len(changed) > 0 {
+				sortStrings(changed)
+				exp2 := exp
+				exp2.AppState, _ = json.Marshal(gs)
+				nc2, rerr2 := restart(c, exp2)
+				if rerr2 != nil {
+					v = append(v, fmt.Sprintf("C16 restart from the export under the block context at block %d fails: %s", blk, trunc(rerr2.Error(), 300)))
+				} else {
+					nctx2 := nc2.App.NewContext(false, nc2.header())
+					for _, st := range customStores {
+						if d := diffStores(rawStore(c.App, st, octx), rawStore(nc2.App, st, nctx2)); d != "" {
+							v = append(v, fmt.Sprintf("C16 store %s (modules %s exported under the block context, time %d): %s (block %d)", st, strings.Join(changed, ","), c.Time, d, blk))
+						}
+					}
+				}
+			}
+		}
+	}
 	return v, nc
+}
+
+func canonJSON(raw json.RawMessage) string {
+	var x interface{}
+	if json.Unmarshal(raw, &x) != nil {
+		return string(raw)
+	}
+	b, _ := json.Marshal(x)
+	return string(b)
+}
+
+// timedExports calls the custom modules' ExportGenesis with the committed state and the current block header.
+func timedExports(c *Chain) (m map[string]json.RawMessage) {
+	defer func() {
+		if r := recover(); r != nil {
+			m = nil
+		}
+	}()
+	ctx := committedCtx(c)
+	cdc := c.App.AppCodec()
+	m = map[string]json.RawMessage{}
+	m[bettypes.ModuleName] = cdc.MustMarshalJSON(betmod.ExportGenesis(ctx, *c.App.BetKeeper))
+	m[markettypes.ModuleName] = cdc.MustMarshalJSON(marketmod.ExportGenesis(ctx, *c.App.MarketKeeper))
+	m[obtypes.ModuleName] = cdc.MustMarshalJSON(obmod.ExportGenesis(ctx, *c.App.OrderbookKeeper))
+	m[housetypes.ModuleName] = cdc.MustMarshalJSON(housemod.ExportGenesis(ctx, *c.App.HouseKeeper))
+	m[ovmtypes.ModuleName] = cdc.MustMarshalJSON(ovmmod.ExportGenesis(ctx, *c.App.OVMKeeper))
+	m[rewardtypes.ModuleName] = cdc.MustMarshalJSON(rewardmod.ExportGenesis(ctx, *c.App.RewardKeeper))
+	m[subtypes.ModuleName] = cdc.MustMarshalJSON(submod.ExportGenesis(ctx, *c.App.SubaccountKeeper))
+	m[minttypes.ModuleName] = cdc.MustMarshalJSON(mintmod.ExportGenesis(ctx, c.App.MintKeeper))
+	return m
 }
 
 // rgenesisCheck: the same for a reward-machine history (rhist file)
